@@ -84,7 +84,7 @@ def sid_from(j):
         return Sid(query=j["query"])
     if j.get("path") is not None:
         return Sid(path=to_real(j["path"]), config=j.get("config"))
-    raise RuntimeError("sid source expected")
+    raise ProtocolError("sid source expected")
 
 
 def resolver_of(name):
@@ -151,7 +151,7 @@ def sid_call(j):
         return hash(x) == hash(y)
     if m == "eq_str":
         return x == j["str"]
-    raise RuntimeError("unknown sid method " + m)
+    raise ProtocolError("unknown sid method " + m)
 
 
 def _roots():
@@ -327,7 +327,7 @@ def world_op(j):
         return jsid(x.get_next("version"))
     if do == "get_new":
         return jsid(x.get_new("version"))
-    raise RuntimeError("unknown world op " + do)
+    raise ProtocolError("unknown world op " + do)
 
 
 def step(j):
@@ -495,7 +495,11 @@ def step(j):
         t = dict(j["templates"])
         conf_util.pattern_replacing(t, {k: dict(v) for k, v in j["key_patterns"]})
         return jdict(t)
-    raise RuntimeError("unknown op " + op)
+    raise ProtocolError("unknown op " + op)
+
+
+class ProtocolError(Exception):
+    """an operation this server does not know (a RuntimeError of the implementation is an ANSWER)"""
 
 
 def main():
@@ -507,10 +511,10 @@ def main():
         j = json.loads(line)
         try:
             r = {"ok": step(j)}
+        except ProtocolError as e:      # the harness' own mistake (unknown operation): not an answer
+            r = {"bad": str(e)}
         except RecursionError as e:
             r = {"err": "recursion", "msg": "RecursionError"}
-        except RuntimeError as e:
-            r = {"bad": str(e)}
         except BaseException as e:  # noqa
             r = {"err": err_name(e), "msg": "%s: %s" % (type(e).__name__, str(e)[:200])}
         out.write(json.dumps(r, ensure_ascii=False) + "\n")
